@@ -285,4 +285,15 @@ def templates : List (String × List Entry) := [
   ("KSI_ExtendReqPdu", tKSI_ExtendReqPdu),
   ("KSI_ExtendRespPdu", tKSI_ExtendRespPdu)]
 
+/-- the registry of KSI hash algorithm ids with the digest length of each (octets), as it stands at the pinned commit —
+**not regenerated**: SHA-1, SHA2-256, RIPEMD-160, SHA2-384, SHA2-512, SHA3-224/256/384/512, SM3 (3 and 6 are retired) -/
+def hashLens : List (Nat × Nat) :=
+  [(0, 20), (1, 32), (2, 20), (4, 48), (5, 64), (7, 28), (8, 32), (9, 48), (10, 64), (11, 32)]
+
+/-- an imprint of the registry: algorithm octet of a registered id followed by a digest of that algorithm's length -/
+def imprintOK (b : List UInt8) : Bool :=
+  match b with
+  | [] => false
+  | a :: d => hashLens.any fun (i, l) => i == a.toNat && l == d.length
+
 end KsiVerif.SchemaRef
